@@ -24,21 +24,21 @@ def main(ctx):
     # M ---------------------------------------------------------------------------------------
     cases = ctx.path("cases.ndjson")
     cfg = "Writer_thorough.cfg" if thorough else "Writer_quick.cfg"
-    ctx.tlc_model("Writer", cfg, env={"VERIF_CASES": cases}, timeout=1500)
+    ctx.tlc_model("Writer", cfg, env={"VERIF_CASES": cases}, timeout=2400, heap="24g" if thorough else None)
     ctx.tlc_model("Writer", "Writer_live.cfg", timeout=600)
     # unbounded in the arrival history (n <= 16): inductive invariant of the re-sequencing buffer (Apalache)
     for a in (["--init=Init", "--inv=IndInv", "--length=0"], ["--init=IndInit", "--inv=IndInv", "--length=1"],
               ["--init=IndInit", "--inv=NothingLostAtEnd", "--length=0"]):
         ctx.apalache("ReseqInd.tla", a)
-    allcases = vlib.read_cases(cases)
-    ctx.expect_vacuity("exported writer histories", len(allcases))
-    ctx.extra["exported_cases"] = len(allcases)
+    ncases = sum(1 for _ in open(cases))          # up to 2.8 M lines in thorough: counted, not loaded
+    ctx.expect_vacuity("exported writer histories", ncases)
+    ctx.extra["exported_cases"] = ncases
     # R ---------------------------------------------------------------------------------------
     res = ctx.path("res.ndjson")
-    ctx.harness(["replay", "C04", "--cases", cases, "--out", res], timeout=1500)
+    ctx.harness(["replay", "C04", "--cases", cases, "--out", res], timeout=3000)
     summ = ctx.add_results(res)
-    if summ["checked"] != len(allcases) and not summ.get("aborted_after_failures"):
-        raise vlib.Inconclusive("replayed %d of %d cases" % (summ["checked"], len(allcases)))
+    if summ["checked"] != ncases and not summ.get("aborted_after_failures"):
+        raise vlib.Inconclusive("replayed %d of %d cases" % (summ["checked"], ncases))
     for need in ("json/reordered/empties", "csv/reordered/empties", "fasta/reordered/noempty", "fastq/inorder/noempty"):
         ctx.expect_vacuity("class " + need, ctx.classes.get(need, 0))
     # T ---------------------------------------------------------------------------------------
